@@ -59,7 +59,9 @@ def _apply_rewrites(text, rewrites, what, log):
             found = len(re.findall(old, text))
         else:
             found = text.count(old)
-        if (count is None and found < 1) or (count is not None and found != count):
+        if count == "*":
+            pass          # optional rewrite: applies wherever the text occurs, also nowhere (the code may legitimately not use the construct)
+        elif (count is None and found < 1) or (count is not None and found != count):
             raise LostAnchor("%s: rewrite anchor %r found %d times, expected %s" % (what, old[:60], found, count if count is not None else ">=1"))
         text = re.sub(old, new, text) if is_re else text.replace(old, new)
         log.append("%s: %r -> %r (x%d)" % (what, old[:70], new[:70], found))
